@@ -98,7 +98,7 @@ def noLocale : Locale := { ok := false, apFmt := [], month3 := [], month4 := [],
 
 def confStr (secs : List Sec) (cellNumeric : Bool) (n : NumIn) : String :=
   let numeric := cellNumeric && n.isNum
-  let (vst, up) := valueSectionType secs numeric n.neg
+  let (vst, up) := valueSectionType secs numeric n.neg n.zero
   match selectSection secs vst with
   | none => "C=-"
   | some (i, sc) =>
@@ -113,7 +113,7 @@ def confStr (secs : List Sec) (cellNumeric : Bool) (n : NumIn) : String :=
 
 def exactStr (secs : List Sec) (value : Str) (cellNumeric : Bool) (n : NumIn) : String :=
   let numeric := cellNumeric && n.isNum
-  let (vst, _) := valueSectionType secs numeric n.neg
+  let (vst, _) := valueSectionType secs numeric n.neg n.zero
   match selectSection secs vst, Exact.parse value with
   | some (_, sc), some x =>
     if numeric then
